@@ -630,3 +630,48 @@ def run(ctx: Ctx):  # noqa: F811
     # today's metamodel does not contain (anonymous literals with optional properties, ...), shared with C17
     from . import c17 as _c17
     _c17._fold_composite_labels(ctx)
+    # requiredness of a generated attribute: optional exactly when the property is optional or its type admits null --
+    # with `optional` absent, false and true (today's metamodel never writes an explicit false)
+    from .. import flatten as _fl
+    from ..genlint import Index as _Idx
+    for (shape, optional, null_adm), line in sorted(_fl.fold_python_option(_Idx(ctx.src, dirs=("generator",))).items(), key=repr):
+        want = bool(optional) or null_adm
+        got = ": Optional[" in line and "default=None" in line
+        req = ": Optional[" not in line and "default=None" not in line
+        ctx.check(line.startswith("some_prop:") and (got if want else req), "attribute-optional-iff-optional-or-null",
+                  f"python:type={shape}:optional={optional}",
+                  f"a property of type {shape} with optional={'absent' if optional is None else str(optional).lower()} is emitted as "
+                  f"`{line}`: the attribute must be Optional with default None exactly when the property is optional or its type "
+                  "admits null", P_PYUTILS, None, sample={"type": shape, "optional": optional, "line": line})
+    # a message without typeName gets its class name from the method string -- by the python plugin (`_to_class_name`) and,
+    # independently, by the testdata plugin (`lsp_method_to_name`), whose file names the generated test-suite matches
+    # against the python classes: the two derivations must agree
+    _message_names_agree(ctx)
+
+
+def _message_names_agree(ctx: Ctx):
+    from ..microeval import Interp as _I, Raised as _R, Closure as _C
+    P_TDG = "generator/plugins/testdata/testdata_generator.py"
+    try:
+        pit = _I(ast.parse(ctx.src.text(P_PYUTILS)), name=P_PYUTILS)
+        tit = _I(ast.parse(ctx.src.text(P_TDG)), name=P_TDG)
+    except SyntaxError as e:
+        raise AnalysisError(str(e))
+    pf, tf = pit.globals.get("_to_class_name"), tit.globals.get("lsp_method_to_name")
+    if not isinstance(pf, _C) or not isinstance(tf, _C):
+        raise AnalysisError(f"{P_PYUTILS} / {P_TDG}: _to_class_name / lsp_method_to_name not found")
+    methods = ["textDocument/seedQuery", "workspace/didChangeWatchedFiles", "$/setTrace", "seed/ping", "window/showMessage",
+               "notebookDocument/didOpen", "x/yZ/aBc", "textDocument/semanticTokens/full/delta", "initialize", "$/cancelRequest"]
+    n = 0
+    for m_ in methods:
+        try:
+            a, b = pf(m_), tf(m_)
+        except _R as e:
+            ctx.fail("message-class-name-agrees", f"method={m_}", f"deriving a class name from {m_!r} raises {e.exc_name}", P_PYUTILS, None)
+            continue
+        n += 1
+        ctx.check(a == b, "message-class-name-agrees", f"method={m_}",
+                  f"for a message {m_!r} without typeName the python plugin names the class {a!r}, the testdata plugin names its "
+                  f"vectors {b!r}: the vectors refer to a class the package does not have", P_PYUTILS, None,
+                  sample={"method": m_, "python": a, "testdata": b})
+    ctx.floor("method strings folded through both name derivations", n, 8)
